@@ -146,7 +146,9 @@ def tls_conn(draw, combos=None, max_records=12, max_len=2000, delivery=None, ep=
 
 
 def single_tls_scenario(**kw):
-    return st.builds(lambda c, ts: {"conns": [c], "tseed": ts}, tls_conn(**kw), st.integers(0, 1000))
+    # capture times: mostly epoch values; sometimes relative times starting at exactly 0, or a file order that is not time order
+    return st.builds(lambda c, ts, tm: dict({"conns": [c], "tseed": ts}, **({"times": tm} if tm else {})), tls_conn(**kw), st.integers(0, 1000),
+                     st.sampled_from([None] * 6 + ["zero", "disorder"]))
 
 
 # ------------------------------------------------------------------ QUIC
@@ -267,4 +269,5 @@ def quic_conn(draw, max_steps=12, zero_cid=True, early=True, retry=True, offered
 
 
 def single_quic_scenario(**kw):
-    return st.builds(lambda c, ts: {"conns": [c], "tseed": 1 + ts}, quic_conn(**kw), st.integers(0, 1000))
+    return st.builds(lambda c, ts, tm: dict({"conns": [c], "tseed": 1 + ts}, **({"times": tm} if tm else {})), quic_conn(**kw), st.integers(0, 1000),
+                     st.sampled_from([None] * 6 + ["zero", "disorder"]))
